@@ -170,8 +170,10 @@ pub fn events_for_case(ci: usize, case: &Value) -> Vec<Value> {
         let dangling: Vec<String> = ns.map(|n| n.imports.iter().filter(|(_, module, remote)| {
             !file.namespaces.iter().any(|x| &x.name == module && x.decls.iter().any(|d| &d.name == remote))
         }).map(|(l, m, r)| format!("{l} = {m}.{r}")).collect()).unwrap_or_default();
+        // the imported names of this module that consist of capital letters and hyphens only (mangled as they are mentioned)
+        let allcaps: Vec<String> = table.imports(m).iter().map(|(_, n)| n.clone()).filter(|n| n.chars().all(|c| c.is_ascii_uppercase() || c == '-')).map(|n| mangle(&n)).collect();
         evs.push(json!({"ev": "tsns", "case": ci, "module": table.module_name(m), "found": ns.is_some(), "unresolved": unresolved, "dangling": dangling,
-                        "asn": table.module_text(m, None)}));
+                        "allcaps_imports": allcaps, "asn": table.module_text(m, None)}));
         for d in table.defs().iter().filter(|d| d.m == m && d.k != "VALUE") {
             let name = mangle(&table.def_name(d.idx));
             let decls: Vec<&tsproj::TsDecl> = ns.map(|n| n.decls.iter().filter(|x| x.name == name).collect()).unwrap_or_default();
@@ -208,7 +210,7 @@ pub fn hyphen_events(ci: usize) -> Vec<Value> {
     let file = tsproj::project(&o.generated);
     evs[0]["balanced"] = json!(file.balanced);
     let ns = file.namespaces.iter().find(|n| n.name == "Hyph_Mod");
-    evs.push(json!({"ev": "tsns", "case": ci, "module": "Hyph-Mod", "found": ns.is_some(), "unresolved": [], "dangling": [], "asn": text}));
+    evs.push(json!({"ev": "tsns", "case": ci, "module": "Hyph-Mod", "found": ns.is_some(), "unresolved": [], "dangling": [], "allcaps_imports": [], "asn": text}));
     let decl = |name: &str| ns.and_then(|n| n.decls.iter().find(|d| d.name == name));
     let count = |name: &str| ns.map(|n| n.decls.iter().filter(|d| d.name == name).count()).unwrap_or(0);
     // the ENUMERATED: members named by the mangled enumerals, valued by the original ones
